@@ -40,4 +40,5 @@ Definition expected_defaults : list (meth * list ex) :=
    (MPopLast, [EMissing; EMissing]); (MUpdate, []); (MUpdateExtend, []); (MIOr, []);
    (MIterItems, [EFalse]); (MIterKeys, [EFalse]); (MIterValues, [EFalse]); (MReversed, []);
    (MKeys, [EFalse]); (MValues, [EFalse]); (MItems, [EFalse]); (MIter, []); (MGetState, []); (MSetState, []);
-   (MCopy, []); (MInverted, []); (MCounts, []); (MSorted, [ENone; EFalse]); (MToDict, [EFalse])].
+   (MCopy, []); (MInverted, []); (MCounts, []); (MSorted, [ENone; EFalse]); (MToDict, [EFalse]);
+   (MEq, []); (MNe, []); (MSortedValues, [ENone; EFalse])].
